@@ -23,7 +23,7 @@ import (
 
 type coalesceSummary struct {
 	ptrParams []int        // indices of the pointer / map / slice parameters
-	outcome   map[uint]int // assignment (bit k set = ptrParams[k] is non-nil) → parameter index returned, -1 = fresh, -2 = unknown
+	outcome   map[uint]int // assignment (bit k set = ptrParams[k] is non-nil) → parameter index returned, -1 = fresh, -2 = unknown, -3 = (nil, error)
 	fresh     map[uint]ssa.Value
 }
 
@@ -38,7 +38,11 @@ func nilable(t types.Type) bool {
 }
 
 func coalesceOf(h *ssa.Function) *coalesceSummary {
-	if h == nil || h.Blocks == nil || !core.InModule(h) || h.Signature.Results().Len() != 1 || !nilable(h.Signature.Results().At(0).Type()) {
+	if h == nil || h.Blocks == nil || !core.InModule(h) || h.Signature.Results().Len() < 1 || h.Signature.Results().Len() > 2 || !nilable(h.Signature.Results().At(0).Type()) {
+		return nil
+	}
+	withErr := h.Signature.Results().Len() == 2
+	if withErr && !types.Identical(h.Signature.Results().At(1).Type(), types.Universe.Lookup("error").Type()) {
 		return nil
 	}
 	if s, ok := coalesceCache[h]; ok {
@@ -72,12 +76,26 @@ func coalesceOf(h *ssa.Function) *coalesceSummary {
 				switch x := in.(type) {
 				case *ssa.Call:
 					if _, isBuiltin := x.Call.Value.(*ssa.Builtin); !isBuiltin {
-						return nil
+						// building an error value is the one call allowed
+						t := an.Callee(x)
+						if !withErr || t == nil || t.Pkg == nil || (t.Pkg.Pkg.Path() != "fmt" && t.Pkg.Pkg.Path() != "errors") {
+							return nil
+						}
 					}
 				case *ssa.Go, *ssa.Defer, *ssa.Send, *ssa.MapUpdate, *ssa.Panic:
 					return nil
 				case *ssa.Store:
-					if _, isAlloc := x.Addr.(*ssa.Alloc); !isAlloc {
+					// stores into locals only (a variable, an element of a local array such as a varargs list)
+					var base ssa.Value = x.Addr
+					for k := 0; k < 3; k++ {
+						switch y := base.(type) {
+						case *ssa.IndexAddr:
+							base = y.X
+						case *ssa.FieldAddr:
+							base = y.X
+						}
+					}
+					if _, isAlloc := base.(*ssa.Alloc); !isAlloc {
 						return nil
 					}
 				}
@@ -119,6 +137,12 @@ func coalesceOf(h *ssa.Function) *coalesceSummary {
 					b = b.Succs[1]
 				}
 			case *ssa.Return:
+				if withErr && !isNilConst(t.Results[1]) {
+					// (nil, error): nothing to hand out
+					res = -3
+					b = nil
+					break
+				}
 				v := t.Results[0]
 				for k := 0; k < 4; k++ {
 					phi, isPhi := v.(*ssa.Phi)
@@ -162,8 +186,8 @@ func coalesceOf(h *ssa.Function) *coalesceSummary {
 // nonNil: whatever the arguments, the helper returns a non-nil value (a parameter only where it is non-nil).
 func (s *coalesceSummary) nonNil() bool {
 	for asg, res := range s.outcome {
-		if res == -1 {
-			continue
+		if res == -1 || res == -3 {
+			continue // a fresh value, or an error instead of a value
 		}
 		ok := false
 		for k, i := range s.ptrParams {
@@ -204,7 +228,7 @@ func (s *coalesceSummary) prefers(own, def int) bool {
 				return false
 			}
 		default:
-			if res != -1 {
+			if res != -1 && res != -3 {
 				return false
 			}
 		}
